@@ -31,6 +31,12 @@ def py_eval_factory(leaf, consts):
                     s = None
                 if s in names:
                     return ast.copy_location(ast.Name(id="P_" + names[s], ctx=ast.Load()), node)
+                # `x is not None` / `a not in b` where the registered parameter is the positive form
+                if isinstance(node, ast.Compare) and len(node.ops) == 1 and isinstance(node.ops[0], (ast.IsNot, ast.NotIn)):
+                    pos = ast.unparse(ast.Compare(left=node.left, ops=[ast.Is() if isinstance(node.ops[0], ast.IsNot) else ast.In()],
+                                                  comparators=node.comparators))
+                    if pos in names:
+                        return ast.copy_location(ast.UnaryOp(op=ast.Not(), operand=ast.Name(id="P_" + names[pos], ctx=ast.Load())), node)
             return super().generic_visit(node)
 
     tree = ast.fix_missing_locations(Sub().visit(tree))
